@@ -258,6 +258,10 @@ fn probe(pattern: &str, text: &str) -> i32 {
         })
         .collect();
     println!("find_iter: {}", items.join(" "));
+    if let Ok(tpl) = std::env::var("FRSIM_PROBE_TEMPLATE") {
+        println!("replace_all({:?}) = {:?}", tpl, guarded(|| re.try_replacen(text, 0, tpl.as_str()).map(|c| c.to_string())).show());
+        println!("captures_len = {}, names = {:?}", re.captures_len(), re.capture_names().collect::<Vec<_>>());
+    }
     0
 }
 
